@@ -328,6 +328,9 @@ def streams(ck, name, family, scale=1, faults=False, maxstream=4, sizes="1,2,3",
                       "--seed", seed(), "--scale", scale, "--faults", "true" if faults else "false",
                       "--maxstream", maxstream, "--sizes", sizes] +
                      (["--replay-file", replay_file] if replay_file else []))
+    # two trace specifications read every shard: TraceStreamContract decides (the observable
+    # contract of C07/C08/C18), TraceStream replays the run through ACStream's actions; a run only
+    # the latter cannot explain is reported as drift (the implementation left the model's shape)
     jobs, files, nlines = [], [], []
     for i in range(shards):
         f = "%s.%d.ndjson" % (prefix, i)
@@ -336,45 +339,67 @@ def streams(ck, name, family, scale=1, faults=False, maxstream=4, sizes="1,2,3",
             continue
         files.append(f)
         nlines.append(n)
+        jobs.append(dict(module="TraceStreamContract", cfg=os.path.join(SPEC, "TraceStreamContract.cfg"),
+                         name="streamc_%s_%d" % (name, i), env={"TRACE": f}, workers=2,
+                         timeout=3000, xmx="2g"))
         jobs.append(dict(module="TraceStream", cfg=os.path.join(SPEC, "TraceStream.cfg"),
                          name="stream_%s_%d" % (name, i), env={"TRACE": f}, workers=2,
                          timeout=3000, xmx="2g"))
-    results = tlc_many(jobs, parallel=NCPU)
-    nrej = 0
-    for f, n, res in zip(files, nlines, results):
+    allres = tlc_many(jobs, parallel=NCPU)
+    cres, results = allres[0::2], allres[1::2]
+    nrej = ndrift = 0
+
+    def describe(f, r):
+        ev = read_ndjson_line(f, r["line"])
+        ctx = read_ndjson_line(f, ev["c"])["ctx"]
+        sig = "stream:%s:%s" % (json.dumps(ctx["pats"]),
+                                json.dumps([ev.get("stream"), ev.get("cap"), ev.get("script"),
+                                            ev.get("rfail"), ev.get("wfail"), ev.get("mode"),
+                                            ev.get("rkind"), ev.get("wkind"), ev.get("accept")]))
+        msg = ("stream run on %s pats=%s ci=%s stream=%s cap=%s script=%s rfail=%s(kind %s) wfail=%s(kind %s) "
+               "writer accepts %s mode=%s: %s"
+               % (ctx["repr"], ctx["pats"], ctx["ci"], ev.get("stream") if len(ev.get("stream") or []) < 200 else "<%d bytes>" % len(ev["stream"]),
+                  ev.get("cap"), ev.get("script"), ev.get("rfail"), ev.get("rkind"), ev.get("wfail"), ev.get("wkind"),
+                  ev.get("accept") or "everything", ev.get("mode") or ev.get("ev"), r["why"]))
+        return sig, msg, ctx, ev
+
+    for f, n, cr, res in zip(files, nlines, cres, results):
+        ck.add_tlc(cr)
         ck.add_tlc(res)
-        if res.violated:
-            lines = res.out.splitlines()
-            idx = next((i for i, l in enumerate(lines) if l.startswith("Error:")), 0)
-            ck.violation("replaying recorded stream runs of the real code through ACStream violates %s"
-                         % res.violated,
-                         {"signature": "stream-invariant:%s" % res.violated, "kind": "stream-trace",
-                          "file": f, "trace": lines[idx:idx + 100]})
+        for which, rr in (("contract", cr), ("ACStream", res)):
+            if rr.violated:
+                lines = rr.out.splitlines()
+                idx = next((i for i, l in enumerate(lines) if l.startswith("Error:")), 0)
+                ck.violation("replaying recorded stream runs of the real code (%s) violates %s" % (which, rr.violated),
+                             {"signature": "stream-invariant:%s" % rr.violated, "kind": "stream-trace",
+                              "file": f, "trace": lines[idx:idx + 100]})
+        if cr.violated or res.violated:
             continue
-        if len(res.tagged("DONE")) != min(16, n):
+        if len(cr.tagged("DONE")) != min(16, n) or len(res.tagged("DONE")) != min(16, n):
             raise ToolError("stream trace %s: not all stripes completed" % f)
-        for r in res.tagged("REJECT"):
+        bad = set()
+        for r in cr.tagged("REJECT"):
             nrej += 1
+            bad.add(r["line"])
             if len(ck.violations) + len(ck.known_hits) > 100:
                 continue
-            ev = read_ndjson_line(f, r["line"])
-            ctx = read_ndjson_line(f, ev["c"])["ctx"]
-            sig = "stream:%s:%s" % (json.dumps(ctx["pats"]),
-                                    json.dumps([ev.get("stream"), ev.get("cap"), ev.get("script"),
-                                                ev.get("rfail"), ev.get("wfail"), ev.get("mode"),
-                                                ev.get("rkind"), ev.get("wkind"), ev.get("accept")]))
-            ck.violation("stream run on %s pats=%s ci=%s stream=%s cap=%s script=%s rfail=%s(kind %s) wfail=%s(kind %s) "
-                         "writer accepts %s mode=%s: %s"
-                         % (ctx["repr"], ctx["pats"], ctx["ci"], ev.get("stream"), ev.get("cap"),
-                            ev.get("script"), ev.get("rfail"), ev.get("rkind"), ev.get("wfail"), ev.get("wkind"),
-                            ev.get("accept") or "everything", ev.get("mode"), r["why"]),
-                         {"signature": sig, "kind": "stream-run", "ctx": ctx, "run": ev, "why": r["why"]})
+            sig, msg, ctx, ev = describe(f, r)
+            ck.violation(msg, {"signature": sig, "kind": "stream-run", "ctx": ctx, "run": ev, "why": r["why"]})
+        for r in res.tagged("REJECT"):
+            if r["line"] in bad:
+                continue
+            ndrift += 1
+            if len(ck.drift) < 50:
+                sig, msg, ctx, ev = describe(f, r)
+                ck.drift.append({"why": "observable contract holds, but ACStream cannot explain the run step by step: "
+                                        + r["why"], "ctx": ctx,
+                                 "run": {k: ev.get(k) for k in ("stream", "cap", "script", "rfail", "wfail", "mode", "accept")}})
     ck.traces += st.get("events", 0)
     ck.evaluations += st.get("events", 0)
     ck.distinct += distinct_lines(files, ("c",))
     ck.stage(stage, family=family, scale=scale, faults=faults, contexts=st.get("contexts"),
-             runs=st.get("events"), rejected=nrej,
-             replay_states=sum(r.distinct for r in results),
+             runs=st.get("events"), rejected=nrej, step_drift=ndrift,
+             replay_states=sum(r.distinct for r in results) + sum(r.distinct for r in cres),
              wall=round(max([r.wall for r in results] or [0]), 1))
     if files and nlines[0] >= 3:
         ck.sample(read_ndjson_line(files[0], 3))
